@@ -10,7 +10,7 @@ from props import evloop_common as ec
 META = {
     "technique": "TLA+ abstract concurrent object with silent Lin/Commit steps (EventLoop.tla) checked by TLC on all interleavings; real EventLoopScheduler run under deterministic thread schedules (preemption-bounded + seeded random) with a controlled clock, every execution validated as a trace by TLC (EventLoopTrace.tla); PlusCal lock-granularity model of run() checked against the same invariants",
     "level": "TLC checks Serial/OneThread/Fifo/DueOrder/CrossOrderTI/CrossOrderIT/NotEarly/CancelledNeverRuns/NoRunAfterDisposeReturned/ThreadForPending on every interleaving of the bounded abstract generator (2 clients, loop-thread lifecycle, clock) and NoLostWakeup as a liveness property; 40-65 client scenarios (schedule / schedule_relative / schedule_absolute / cancel / dispose / sleep, actions that call the scheduler, exit_if_empty both ways) are executed on the real class for every sampled schedule up to the preemption bound and each recorded call/ret/start/end/thread-start/thread-exit trace must be explainable by some placement of the silent linearization, commit and exit steps that satisfies every invariant, ending in a quiescent state without a due pending item (no lost wake-up) and, with exit_if_empty, without a thread.",
-    "note": "TLC 2026.09 / DetSched switch points = GIL-realisable points of eventloopscheduler.py + scheduleditem.py and every shim operation; threading.Condition/Lock, Thread (thread_factory) and default_now replaced by cooperative shims on a controlled clock; integer-second times",
+    "note": "TLC 2026.09 / DetSched switch points = GIL-realisable points of eventloopscheduler.py + scheduleditem.py and every shim operation; threading.Condition/Lock, Thread (thread_factory) and default_now replaced by cooperative shims on a controlled clock; scenario scripts in ticks under two time-scale profiles (1 tick = 1 s; 1 tick = 0.4 ms), traces in integer microseconds",
     "ref": "DESIGN.md 6 C31, 3.3, D.6",
 }
 
